@@ -351,12 +351,15 @@ theorem life_close_frame {s s' : St} {who : Who} {u d : Nat} (h : close s who u 
     · cases h
     · cases h; simp [setDep, setUser]
 
-/-- an execution either leaves recorded and vault balances alone (cancelled) or adds the SAME
-escrowed amounts to both (completed). -/
+/-- an execution either leaves recorded and vault balances alone (cancelled) or adds exactly THE DEPOSIT'S ESCROWED
+amounts to both (completed). -/
 theorem life_exec_frame {s s' : St} {who : Who} {u d fee : Nat} {throw : Bool} {o : Life.Outcome} {paid : Nat}
     (h : exec s who u d fee throw = some (s', o, paid)) :
-    ∃ a b, s'.recLong = s.recLong + a ∧ s'.vaultLong = s.vaultLong + a ∧
-           s'.recShort = s.recShort + b ∧ s'.vaultShort = s.vaultShort + b := by
+    ∃ dep, s.deps u d = some dep ∧
+      s'.recLong = s.recLong + (if o = .completed then dep.escLong else 0) ∧
+      s'.vaultLong = s.vaultLong + (if o = .completed then dep.escLong else 0) ∧
+      s'.recShort = s.recShort + (if o = .completed then dep.escShort else 0) ∧
+      s'.vaultShort = s.vaultShort + (if o = .completed then dep.escShort else 0) := by
   unfold exec at h
   split at h
   · cases h
@@ -376,13 +379,13 @@ theorem life_exec_frame {s s' : St} {who : Who} {u d fee : Nat} {throw : Bool} {
               · cases h
               · split at h
                 · cases h
-                · cases h; exact ⟨dep.escLong, dep.escShort, rfl, rfl, rfl, rfl⟩
+                · cases h; exact ⟨dep, rfl, rfl, rfl, rfl, rfl⟩
             · simp only [ht, if_false] at h
               split at h
-              · cases h; exact ⟨0, 0, by simp [setDep], by simp [setDep], by simp [setDep], by simp [setDep]⟩
+              · cases h; exact ⟨dep, rfl, by simp [setDep], by simp [setDep], by simp [setDep], by simp [setDep]⟩
               · split at h
-                · cases h; exact ⟨0, 0, by simp [setDep], by simp [setDep], by simp [setDep], by simp [setDep]⟩
-                · cases h; exact ⟨dep.escLong, dep.escShort, rfl, rfl, rfl, rfl⟩
+                · cases h; exact ⟨dep, rfl, by simp [setDep], by simp [setDep], by simp [setDep], by simp [setDep]⟩
+                · cases h; exact ⟨dep, rfl, rfl, rfl, rfl, rfl⟩
 
 /-- creating, executing (any outcome) and closing a deposit keep the market's recorded balances
 within the real vault balances. -/
@@ -396,7 +399,7 @@ theorem life_recorded_le_vault {s : St} (hc : LifeCovered s) :
     obtain ⟨a, b, c, e⟩ := life_create_frame h
     exact ⟨by omega, by omega⟩
   · intro who u d fee throw s' o paid h
-    obtain ⟨a, b, e1, e2, e3, e4⟩ := life_exec_frame h
+    obtain ⟨dep, _, e1, e2, e3, e4⟩ := life_exec_frame h
     exact ⟨by omega, by omega⟩
   · intro who u d s' h
     obtain ⟨a, b, c, e⟩ := life_close_frame h
@@ -473,14 +476,17 @@ theorem l2_complete_deposit {s s' : Life2.St} {u i x y : Nat} {act : Life2.Act}
     s'.vaultShort = s.vaultShort + act.escShort ∧ s'.recShort = s.recShort + act.escShort := by
   simp [Life2.complete] at h; subst h; simp [Life2.setAct]
 
-theorem l2_complete_withdrawal {s s' : Life2.St} {u i x y : Nat} {act : Life2.Act}
+/-- a completed withdrawal, from a solvent state: burns exactly its escrowed market tokens and removes the paid amounts
+`x y` from BOTH vault and record — stated without truncated subtraction (the model guards the RECORDED balance,
+`x ≤ s.recLong`; solvency lifts that to the vault) — and the result is solvent. -/
+theorem l2_complete_withdrawal {s s' : Life2.St} {u i x y : Nat} {act : Life2.Act} (hs : Life2.Solvent s)
     (h : Life2.complete s u 1 i act x y = some s') :
-    s'.burned = s.burned + act.escMt ∧ s'.minted = s.minted ∧ s'.burned ≤ s'.minted ∧
-    s'.vaultLong = s.vaultLong - x ∧ s'.recLong = s.recLong - x ∧ x ≤ s.recLong ∧
-    s'.vaultShort = s.vaultShort - y ∧ s'.recShort = s.recShort - y ∧ y ≤ s.recShort := by
-  simp [Life2.complete] at h
-  obtain ⟨⟨h1, h2, h3⟩, rfl⟩ := h
-  simp [Life2.setAct]; omega
+    s'.burned = s.burned + act.escMt ∧ s'.minted = s.minted ∧
+    s'.vaultLong + x = s.vaultLong ∧ s'.recLong + x = s.recLong ∧
+    s'.vaultShort + y = s.vaultShort ∧ s'.recShort + y = s.recShort ∧ Life2.Solvent s' := by
+  obtain ⟨b, m, bm, vl, rl, xl, vs, rs, ys⟩ := complete_withdrawal_raw h
+  have := hs.long; have := hs.short
+  exact ⟨b, m, by omega, by omega, by omega, by omega, ⟨by omega, by omega, bm⟩⟩
 
 /-- a completed market-increase order (kind 4) moves exactly its escrowed collateral into vault and record; nothing
 leaves the pool and the supply is untouched. -/
@@ -812,17 +818,16 @@ example : (Life2.complete { Life2.init 10000 5000 100 with vaultLong := 2001, re
 example : ∃ s', Life2.complete (Life2.init 10000 5000 100) 0 4 0 { state := 0, escLong := 700, escShort := 0, escMt := 0, createdAt := 100, execLamports := 500000, soft := false, receiver := 0 } 0 0 = some s' ∧
     s'.vaultLong = 700 ∧ s'.recLong = 700 := ⟨_, rfl, rfl, rfl⟩
 
-/-- AUDIT (strength): `l2_complete_withdrawal` states the vault side with `Nat` truncated subtraction
-(`s'.vaultLong = s.vaultLong - x`) while the model only guards the RECORDED balance (`x ≤ s.recLong`); from a
-`Solvent` state nothing truncates: subtraction-free equations, and the result is solvent again -/
+/-- AUDIT (strength): the audit found `l2_complete_withdrawal` stated with `Nat` truncated subtraction on the vault side; the
+main theorem is now the subtraction-free one (from a `Solvent` state, result solvent) and this is its corollary in the
+audit's original order of conjuncts. -/
 theorem l2_complete_withdrawal_exact {s s' : Life2.St} {u i x y : Nat} {act : Life2.Act} (hs : Life2.Solvent s)
     (h : Life2.complete s u 1 i act x y = some s') :
     s'.vaultLong + x = s.vaultLong ∧ s'.recLong + x = s.recLong ∧
     s'.vaultShort + y = s.vaultShort ∧ s'.recShort + y = s.recShort ∧
     s'.burned = s.burned + act.escMt ∧ Life2.Solvent s' := by
-  obtain ⟨b, _, bm, vl, rl, xl, vs, rs, ys⟩ := l2_complete_withdrawal h
-  have := hs.long; have := hs.short
-  exact ⟨by omega, by omega, by omega, by omega, b, ⟨by omega, by omega, bm⟩⟩
+  obtain ⟨b, _, vl, rl, vs, rs, hsol⟩ := l2_complete_withdrawal hs h
+  exact ⟨vl, rl, vs, rs, b, hsol⟩
 
 example : Life2.Solvent { Life2.init 10000 5000 100 with vaultLong := 2001, recLong := 2000, vaultShort := 300, recShort := 300, minted := 600, burned := 10 } ∧
     (Life2.complete { Life2.init 10000 5000 100 with vaultLong := 2001, recLong := 2000, vaultShort := 300, recShort := 300, minted := 600, burned := 10 } 0 1 0 { state := 0, escLong := 0, escShort := 0, escMt := 100, createdAt := 100, execLamports := 0, soft := false, receiver := 0 } 333 50).isSome = true :=
